@@ -207,6 +207,9 @@ func (cs *ContractSet) parseContractText(text, file, pkgPath string) error {
 			}
 			sf.Src = src
 			sf.Pkg = pkgPath
+			if old, dup := cs.Specs[sf.Name]; dup {
+				return fail(fmt.Errorf("spec %s already declared at %s (spec names are global)", sf.Name, old.Src))
+			}
 			cs.Specs[sf.Name] = sf
 			cur = nil
 		case strings.HasPrefix(s, "axiom ") || strings.HasPrefix(s, "lemma "):
